@@ -446,6 +446,21 @@ fn fixed_values() -> Vec<J> {
 		deep = if i % 2 == 0 { J::Arr(vec![deep]) } else { J::Obj(vec![("k".into(), deep)]) };
 	}
 	v.push(deep);
+	// counts beyond 2^8, 2^10, 2^12 and 2^16 of the same small thing side by side (empty arrays,
+	// empty objects, empty strings, nulls, one-element arrays): whatever a parser counts or stacks
+	// per element must not run out
+	for n in [300usize, 1100, 4200, 70_000] {
+		for unit in [J::Arr(vec![]), J::Obj(vec![]), J::Str(String::new()), J::Null, J::Arr(vec![J::Num(1.0)])] {
+			v.push(J::Arr(vec![unit.clone(); n]));
+		}
+		v.push(J::Obj((0..n.min(4200)).map(|i| (format!("k{i}"), if i % 2 == 0 { J::Arr(vec![]) } else { J::Obj(vec![]) })).collect()));
+	}
+	// nesting next to siblings (the reference parser serde_json stops at 128 levels)
+	let mut deep = J::Arr(vec![]);
+	for _ in 0..100 {
+		deep = J::Arr(vec![J::Arr(vec![]), deep]);
+	}
+	v.push(deep);
 	v
 }
 
